@@ -19,10 +19,11 @@ from harness.base import Results, corpus_lines
 from harness import c08_world as W
 
 FA = 7            # force_after used by the injected close() calls
+FA_LONG = 40      # a force_after beyond the default processing_timeout (30)
 REACT = 3         # a stubborn handler's reaction time
 TAIL = 200        # virtual seconds after the conversation
 LTS_EVENTS = {'Q', 'W', 'B', 'C', 'X', 'D', 'NQ', 'NW', 'BT', 'F', 'O', 'OB', 'ON', 'R', 'L', 'LE', 'AC', 'ACC',
-              'ACT', 'AB', 'A'}
+              'ACT', 'AB', 'A', 'Z', 'XC', 'OM', 'WC'}
 
 RULE = ('case = (session kind RPCSession|MessageSession, transport RSTransport|USTransport, '
         'graceful close completes or stalls, event list); crash-point cases = conversation of '
@@ -31,17 +32,25 @@ RULE = ('case = (session kind RPCSession|MessageSession, transport RSTransport|U
         'exhaustive over all conversations up to the stated length from the stated alphabets x '
         'all faults x all injection points, + seeded random longer ones. non-trivial = at the '
         'moment connection_lost was delivered at least one outgoing request was pending or one '
-        'handler was inside its body; distinct = distinct (config, event list)')
+        'handler was inside its body; distinct = distinct (config, event list). mass_outgoing = 51..60 '
+        'simultaneous send_request callers (outgoing limit 50) x fault; microstep = fault after only n '
+        'loop iterations of an event (oracle only)')
 
 # ---------------------------------------------------------------------------- conversations
 RPC_STEPS_QUICK = ['W', 'B', 'K', 'O', 'OB', 'Q', 'PA', 'GB', 'A5']
-RPC_STEPS_FULL = ['Q', 'W', 'B', 'BL', 'C', 'X', 'K', 'D', 'NW', 'NQ', 'BT', 'PT', 'GB', 'O', 'OB', 'ON',
-                  'R', 'F', 'PA', 'RE', 'A1', 'A5', 'A25']
+RPC_STEPS_FULL = ['Q', 'W', 'B', 'BL', 'C', 'CL', 'WC', 'X', 'K', 'D', 'NW', 'NQ', 'BT', 'PT', 'GB', 'O', 'OB',
+                  'ON', 'OM', 'R', 'F', 'Z', 'PA', 'RE', 'A1', 'A5', 'A25']
 MSG_STEPS_QUICK = ['W', 'B', 'Q', 'ON', 'PA', 'GB', 'A5']
-MSG_STEPS_FULL = ['Q', 'W', 'B', 'BL', 'C', 'X', 'PT', 'GB', 'BC', 'ON', 'F', 'PA', 'RE', 'A1', 'A5', 'A25']
+MSG_STEPS_FULL = ['Q', 'W', 'B', 'BL', 'C', 'CL', 'WC', 'X', 'PT', 'GB', 'BC', 'ON', 'F', 'Z', 'PA', 'RE', 'A1',
+                  'A5', 'A25']
 FAULTS = ['drop', 'close', 'close2', 'closeclose', 'abort', 'close_stalled', 'close2_stalled',
           'handler_close', 'handler_close_stalled', 'abort_then_close', 'close_then_drop',
-          'drop_error', 'drop_then_close']
+          'drop_error', 'drop_then_close',
+          # a handler closing with a force_after beyond its own processing timeout; a handler that
+          # waits, then closes; close() whose caller is cancelled; a handler task that ends with a
+          # cancellation nobody in the session asked for (then a close())
+          'handler_close_long', 'handler_close_long_stalled', 'waiting_handler_close_stalled',
+          'close_cancelled', 'close_cancelled_stalled', 'crash', 'crash_then_close_stalled']
 REACT_LONG = 20   # a stubborn handler that outlasts force_after (and twice force_after)
 
 
@@ -73,6 +82,22 @@ def expand(steps, fault, at):
         if f == 'handler_close':
             st['h'] += 1
             return [('C', st['h'], FA)]
+        if f == 'handler_close_long':
+            st['h'] += 1
+            return [('C', st['h'], FA_LONG)]
+        if f == 'waiting_handler_close':
+            st['h'] += 1
+            return [('WC', st['h'], 30), ('A', 1), ('F', st['h'])]
+        if f == 'close_cancelled':
+            st['c'] += 1
+            return [('AC', st['c'], FA), ('A', 1), ('XC', st['c'])]
+        if f in ('crash', 'crash_then_close'):
+            st['h'] += 1
+            evs_ = [('W', st['h']), ('Z', st['h'])]
+            if f == 'crash_then_close':
+                st['c'] += 1
+                evs_.append(('AC', st['c'], FA))
+            return evs_
         if f == 'abort_then_close':
             st['c'] += 1
             return [('AB',), ('AC', st['c'], FA)]
@@ -91,9 +116,19 @@ def expand(steps, fault, at):
             st['h'] += 1
             st['waiting'].append(st['h'])
             return [('B', st['h'], REACT if name == 'B' else REACT_LONG)]
-        if name == 'C':
+        if name in ('C', 'CL'):
             st['h'] += 1
-            return [('C', st['h'], FA)]
+            return [('C', st['h'], FA if name == 'C' else FA_LONG)]
+        if name == 'WC':
+            st['h'] += 1
+            st['waiting'].append(st['h'])
+            return [('WC', st['h'], 30)]
+        if name == 'Z':
+            return [('Z', st['waiting'].pop(0))] if st['waiting'] else []
+        if name == 'OM':
+            st['k'] += 51
+            st['pending'].append(st['k'] - 50)
+            return [('OM', st['k'] - 50, 51)]
         if name == 'BT':
             st['h'] += 2
             st['waiting'].append(st['h'] - 1)
@@ -150,9 +185,9 @@ def random_crash_cases(r, n, maxlen=6):
 
 
 # ---------------------------------------------------------------------------- lifecycle (model) cases
-LTS_ALPHA = ['Q', 'W', 'B3', 'B20', 'C7', 'C2', 'F', 'O', 'R', 'L', 'AC7', 'AC2', 'ACC', 'AB', 'A1', 'A2',
-             'A5']
-LTS_ALPHA_QUICK = ['W', 'B3', 'B20', 'C7', 'O', 'R', 'L', 'AC7', 'AC2', 'AB', 'A2', 'A5']
+LTS_ALPHA = ['Q', 'W', 'B3', 'B20', 'B40', 'C7', 'C2', 'C40', 'WC30', 'D', 'F', 'Z', 'O', 'R', 'L', 'AC7', 'AC2', 'ACC',
+             'XC', 'AB', 'A1', 'A2', 'A5', 'A30']
+LTS_ALPHA_QUICK = ['W', 'B3', 'B20', 'C7', 'C40', 'Z', 'O', 'R', 'L', 'AC7', 'AC2', 'XC', 'AB', 'A5', 'A30']
 
 
 def expand_lts(letters, skind, tail=True):
@@ -165,11 +200,22 @@ def expand_lts(letters, skind, tail=True):
         elif x[0] == 'B':
             h += 1
             evs.append(('B', h, int(x[1:])))
+        elif x[:2] == 'WC':
+            h += 1
+            evs.append(('WC', h, int(x[2:])))
         elif x[0] == 'C':
             h += 1
             evs.append(('C', h, int(x[1:])))
+        elif x == 'D':
+            if skind == 'rpc':
+                h += 1
+                evs.append(('D', h))
         elif x == 'F':
             evs.append(('F', max(h, 1)))
+        elif x == 'Z':
+            evs.append(('Z', max(h, 1)))
+        elif x == 'XC':
+            evs.append(('XC', max(c, 1)))
         elif x == 'O':
             if skind == 'rpc':
                 k += 1
@@ -202,37 +248,50 @@ def random_lts_case(r):
         x = r.random()
         if x < 0.25:
             h += 1
-            kind = r.choice(['Q', 'W', 'W', 'B', 'B', 'C'])
-            if kind == 'B':
-                evs.append(('B', h, r.choice([0, 1, 3, 3, 8, 20])))
+            kind = r.choice(['Q', 'W', 'W', 'B', 'B', 'C', 'C', 'WC', 'D' if skind == 'rpc' else 'W'])
+            if kind == 'WC':
+                evs.append(('WC', h, r.choice([0, 2, 7, 23, 30, 31, 40])))
+            elif kind == 'B':
+                evs.append(('B', h, r.choice([0, 1, 3, 3, 8, 20, 40])))
             elif kind == 'C':
-                evs.append(('C', h, r.choice([0, 2, 7])))
+                evs.append(('C', h, r.choice([0, 2, 7, 23, 30, 31, 40])))
             else:
                 evs.append((kind, h))
-        elif x < 0.32 and h:
+        elif x < 0.31 and h:
             evs.append(('F', r.randint(1, h)))
+        elif x < 0.36 and h:
+            evs.append(('Z', r.randint(1, h)))
         elif x < 0.45 and skind == 'rpc':
             k += 1
             evs.append(('O', k))
+        elif x < 0.47 and skind == 'rpc':
+            n = r.choice([49, 50, 51, 53, 60])
+            evs.append(('OM', k + 1, n))
+            k += n
         elif x < 0.52 and skind == 'rpc' and k:
             evs.append(('R', r.randint(1, k)))
         elif x < 0.58:
             evs.append((r.choice(['L', 'LE']),))
-        elif x < 0.72:
+        elif x < 0.70:
             c += 1
             evs.append(('AC', c, r.choice([0, 1, 2, 7, 7, 30])))
-        elif x < 0.76:
+        elif x < 0.73:
             c += 2
             evs.append(('ACC', c - 1, c, r.choice([2, 7])))
-        elif x < 0.80:
+        elif x < 0.76:
             c += 1
             evs.append(('ACT', c, r.choice([2, 7])))
-        elif x < 0.85:
+        elif x < 0.80 and c:
+            evs.append(('XC', r.randint(1, c)))
+        elif x < 0.84:
             evs.append(('AB',))
         else:
-            evs.append(('A', r.choice([1, 1, 2, 3, 4, 5, 7, 10, 23, 30])))
+            evs.append(('A', r.choice([1, 1, 2, 3, 4, 5, 7, 10, 23, 29, 30, 31])))
     evs.append(('A', 100))
-    return ({'skind': skind, 'transport': r.choice(['rs', 'us']), 'stalled': r.random() < 0.4}, evs)
+    cfg = {'skind': skind, 'transport': r.choice(['rs', 'us']), 'stalled': r.random() < 0.4}
+    if r.random() < 0.4:
+        cfg['ptimeout'] = r.choice([5, 12])
+    return (cfg, evs)
 
 
 # ---------------------------------------------------------------------------- running
@@ -243,15 +302,16 @@ def is_lts(evs):
 def fmt_obs(o):
     return (f"hook={o['hook']} closed={int(o['closed'])} live={o['live']} "
             f"tickets={','.join(o['tickets'])} closers={','.join(o['closers'])} "
-            f"aborts={','.join(map(str, o['aborts']))} now={o['now']} closing={int(o['closing'])}")
+            f"abort={o['abort']} lost={int(o['lost'])} now={o['now']} closing={int(o['closing'])}")
 
 
 def oracle(cfg, evs, summ, ptimeout):
-    """the property, clause by clause, on the implementation's own observations"""
+    """the property, clause by clause, on the implementation's own observations (public ones
+    only: task outcomes, hook calls, calls on the asyncio transport, virtual times)"""
     bad = []
     if summ.get('spin'):
-        bad.append(('c08:livelock', f'the code under test ran for {W.WATCHDOG_S} s of wall-clock '
-                                    f'time without yielding to the event loop'))
+        bad.append(('c08:livelock', f'the code under test used {summ["spin"]:.0f} s of CPU time '
+                                    f'without yielding to the event loop (twice: the case was re-run)'))
         return bad
     if summ['stall'] is not None:
         i, kind = summ['stall']
@@ -289,6 +349,11 @@ def oracle(cfg, evs, summ, ptimeout):
             if r['outcome'] == 'TaskTimeout' and r['done_at'] == summ['lost_at'] \
                     and r['done_at'] == r['start'] + summ['max_send_delay']:
                 continue
+            # likewise a caller that was still queued for a slot of the outgoing limiter when the
+            # hook ran, got the slot then and blocked sending (send buffer full at that moment)
+            if r['outcome'] == 'TaskTimeout' and summ['paused_at_hook'] and summ['hook_times'] \
+                    and r['done_at'] == summ['hook_times'][0] + summ['max_send_delay']:
+                continue
             bad.append(('c08:waiter-not-cancelled',
                         f'outgoing {r["kind"]} {k} was waiting when the connection was lost at '
                         f'{summ["lost_at"]} and ended with {r["outcome"]} at {r["done_at"]} instead '
@@ -318,14 +383,20 @@ def oracle(cfg, evs, summ, ptimeout):
     if summ['leftover_session_tasks']:
         bad.append(('c08:task-left', f'{summ["leftover_session_tasks"]} task(s) started by the '
                                      f'session are still alive at {summ["now"]}'))
-    if not summ['closed_event']:
-        bad.append(('c08:closed-event-not-set', 'the transport never reported closed'))
-    # close()
+    # close(): "returns", i.e. when the connection is closed: the hook has run and every handler
+    # is done - not before; "forcing an abort if a graceful close does not finish in time": by
+    # start + force_after the connection is lost or abort() has been called
     t_closed = None
-    if summ['hook_times'] and summ['closed_event']:
+    if summ['hook_times'] and not any(r['outcome'] == 'pending' for r in summ['handlers'].values()):
         t_closed = max([summ['hook_times'][0]] +
                        [r['done_at'] for r in summ['handlers'].values() if r['done_at'] is not None])
     for c, r in summ['closers'].items():
+        if r['app_cancelled'] is not None:
+            # the application itself cancelled this task: it is released by that
+            if r['outcome'] == 'pending':
+                bad.append(('c08:close-did-not-return', f'close() {c}, cancelled by the application '
+                                                        f'at {r["app_cancelled"]}, still has not ended'))
+            continue
         if r['outcome'] == 'pending':
             bad.append(('c08:close-did-not-return', f'close() {c} called at {r["start"]} has not '
                                                     f'returned at {summ["now"]}'))
@@ -335,31 +406,40 @@ def oracle(cfg, evs, summ, ptimeout):
             continue
         if t_closed is None:
             continue
-        want = r['start'] if r['closed_at_call'] else max(r['start'], t_closed)
         # returning *before* everything is torn down breaks "returns when closed"; returning
         # later than that is only a difference from the model (reported by the correspondence)
-        if r['done_at'] < want:
+        if r['done_at'] < t_closed:
             bad.append(('c08:close-returned-early',
                         f'close() {c} called at {r["start"]} returned at {r["done_at"]}, but the '
                         f'connection was only fully closed (hook run, handlers done) at {t_closed}'))
-        if not r['closed_at_call'] and t_closed > r['start'] + r['fa'] \
-                and (r['start'] + r['fa']) not in summ['aborts']:
+        due = r['start'] + r['fa']
+        if t_closed > due and not (summ['lost_at'] is not None and summ['lost_at'] <= due) \
+                and not any(a <= due for a in summ['aborts']):
             bad.append(('c08:no-forced-abort',
                         f'close(force_after={r["fa"]}) {c} called at {r["start"]}: not closed by '
-                        f'{r["start"] + r["fa"]} (closed at {t_closed}) and no abort() at that time '
-                        f'(aborts at {summ["aborts"]})'))
+                        f'{due} (closed at {t_closed}), and by then the connection was neither '
+                        f'lost (at {summ["lost_at"]}) nor aborted (abort() at {summ["aborts"]})'))
     for i, o in enumerate(summ['aborters']):
         if o != 'returned':
             bad.append(('c08:abort-did-not-return', f'abort() {i}: {o}'))
     return bad
 
 
+NO_STATS = {'nontrivial': False, 'pending_at_loss': 0, 'in_body_at_loss': 0, 'lost': False,
+            'aborts': 0, 'forced': 0, 'closers': 0, 'spin_retries': 0}
+
+
 def run_one(repo, cfg, evs):
     lts = is_lts(evs)
-    ptimeout = 10 ** 6 if lts else 30
-    full = dict(cfg, ptimeout=ptimeout)
+    ptimeout = cfg.get('ptimeout') or 30
+    full = dict(cfg, ptimeout=ptimeout, plain=lts)
     obs, summ = W.run_events(repo, full, evs)
-    bad = oracle(cfg, evs, summ, None if lts else ptimeout)
+    retries = 0
+    if summ.get('spin'):
+        # the CPU budget of one case ran out: only a repeatable spin is an observation
+        retries = 1
+        obs, summ = W.run_events(repo, full, evs, budget=2 * W.CPU_BUDGET_S)
+    bad = oracle(cfg, evs, summ, ptimeout)
     stats = {
         'nontrivial': bool(summ['pending_at_loss'] or summ['in_body_at_loss']),
         'pending_at_loss': len(summ['pending_at_loss'] or []),
@@ -367,16 +447,16 @@ def run_one(repo, cfg, evs):
         'lost': bool(summ['lost_delivered']),
         'aborts': len(summ['aborts']),
         'forced': sum(1 for c in summ['closers'].values()
-                      if (c['start'] + c['fa']) in summ['aborts']),
+                      if summ['first_abort'] is not None and summ['first_abort'] == c['start'] + c['fa']),
         'closers': len(summ['closers']),
-        'msg_task': summ['message_task'],
+        'spin_retries': retries,
     }
     return bad, ([fmt_obs(o) for o in obs] if lts and summ['stall'] is None else None), stats
 
 
 def _work(args):
-    """a worker gives up on its chunk after the first case that trips the wall-clock watchdog
-    (every further case would cost the same seconds); the skipped ones come back as None"""
+    """a worker gives up on its chunk after the first case that spins (twice) through its CPU
+    budget (every further case would cost the same seconds); the skipped ones come back as None"""
     repo, jobs = args
     out = []
     for cfg, evs in jobs:
@@ -395,11 +475,9 @@ def _work(args):
             where = next(f for f in reversed(frames) if os.path.realpath(f.filename).startswith(rp))
             r = ([('c08:unexpected-exception',
                    f'{type(e).__name__}: {e} raised at {os.path.basename(where.filename)}:'
-                   f'{where.lineno} ({where.name}) during the scenario')], None,
-                 {'nontrivial': False, 'pending_at_loss': 0, 'in_body_at_loss': 0, 'lost': False,
-                  'aborts': 0, 'forced': 0, 'closers': 0, 'msg_task': None})
+                   f'{where.lineno} ({where.name}) during the scenario')], None, dict(NO_STATS))
         out.append(r)
-        if any(k == 'c08:livelock' and 'wall-clock' in why for k, why in r[0]):
+        if any(k == 'c08:livelock' and 'CPU time' in why for k, why in r[0]):
             out += [None] * (len(jobs) - len(out))
             break
     return out
@@ -417,15 +495,21 @@ def run_all(ctx, jobs):
 
 
 def case_of(cfg, evs):
-    return {'skind': cfg['skind'], 'transport': cfg['transport'], 'stalled': bool(cfg['stalled']),
-            'events': ' ; '.join(W.ser(e) for e in evs)}
+    c = {'skind': cfg['skind'], 'transport': cfg['transport'], 'stalled': bool(cfg['stalled']),
+         'events': ' ; '.join(W.ser(e) for e in evs)}
+    if cfg.get('ptimeout'):
+        c['ptimeout'] = cfg['ptimeout']
+    return c
 
 
 def model_line(ctx, cfg, evs):
     rt = int(round((ctx.facts or {}).get('sent_request_timeout', 30.0)))
     dfa = (ctx.facts or {}).get('default_force_after', 30)
     dfa = int(dfa) if isinstance(dfa, (int, float)) else 30
-    return f'{rt} {int(bool(cfg["stalled"]))} {dfa} ; ' + ' ; '.join(W.ser(e) for e in evs)
+    pt = int(cfg.get('ptimeout') or 30)
+    ol = int((ctx.facts or {}).get('outgoing_limit', 50))
+    return (f'{rt} {pt} {ol} {int(bool(cfg["stalled"]))} {dfa} 1 ; '
+            + ' ; '.join(W.ser(e) for e in evs))
 
 
 def evaluate(ctx, jobs, res, label, chunk=40000):
@@ -472,7 +556,8 @@ def _evaluate(ctx, jobs, res, label):
         res.count('handlers_running_at_loss', stats['in_body_at_loss'])
         res.count('forced_aborts', stats['forced'])
         res.count('close_calls', stats['closers'])
-        res.count('message_task_' + str(stats['msg_task']))
+        if stats['spin_retries']:
+            res.count('cpu_budget_retries', stats['spin_retries'])
         if stats['nontrivial']:
             res.nontrivial((cfg['skind'], cfg['transport'], cfg['stalled'], case['events']))
         if i < 2:
@@ -481,23 +566,106 @@ def _evaluate(ctx, jobs, res, label):
 
 
 def parse_case(line):
-    """`<rpc|msg> <rs|us> <stalled 0|1> | ev ; ev ; ...`"""
+    """`<rpc|msg> <rs|us> <stalled 0|1> [processing_timeout] | ev ; ev ; ...`"""
     head, evs = line.split('|', 1)
-    sk, tr, st = head.split()
-    return ({'skind': sk, 'transport': tr, 'stalled': st == '1'}, W.parse_events(evs))
+    f = head.split()
+    cfg = {'skind': f[0], 'transport': f[1], 'stalled': f[2] == '1'}
+    if len(f) > 3:
+        cfg['ptimeout'] = int(f[3])
+    return (cfg, W.parse_events(evs))
+
+
+def mass_cases(deep):
+    """more callers inside send_request than the outgoing limiter has slots (50) at the moment
+    the connection is lost / closed / aborted: those queued for a slot are waiting for a response
+    like the others"""
+    out = []
+    n = 0
+    sizes = (51, 53, 60) if deep else (51, 60)
+    for size in sizes:
+        for fault in ('drop', 'drop_error', 'close', 'close_stalled', 'abort', 'handler_close',
+                      'handler_close_stalled', 'close_cancelled_stalled', 'crash'):
+            for pre in ([], [('A', 3)], [('A', 3), ('R', 2)], [('W', 7)]):
+                stalled, fev = expand([], fault, 0)
+                evs = [('OM', 1, size)] + pre + [(e[0],) + tuple(x + 100 if e[0] in ('C', 'W', 'Z', 'WC') and i == 0 else x
+                                                                    for i, x in enumerate(e[1:])) for e in fev]
+                for skip in ((False, True) if deep else (False,)):
+                    ev2 = list(evs)
+                    if skip:
+                        ev2.insert(-1, ('O', 500))
+                    out.append(({'skind': 'rpc', 'transport': 'rs' if n % 2 == 0 else 'us',
+                                 'stalled': stalled}, ev2))
+                    n += 1
+    # the 51st caller is a batch; more requests than the incoming limiter (20) admits at once
+    for fault in ('drop', 'close_stalled', 'abort', 'handler_close_stalled', 'crash'):
+        stalled, fev = expand([], fault, 0)
+        fev = [(e[0],) + tuple(x + 100 if e[0] in ('C', 'W', 'Z', 'WC') and i == 0 else x
+                               for i, x in enumerate(e[1:])) for e in fev]
+        for skind in ('rpc', 'msg'):
+            heads = [[('WM', 1, 25)], [('WM', 1, 25), ('A', 3), ('F', 2)]]
+            if skind == 'rpc':
+                heads += [[('OM', 1, 50), ('OB', 51)], [('OM', 1, 50), ('OB', 51), ('O', 52)]]
+            for head in heads:
+                out.append(({'skind': skind, 'transport': 'rs' if n % 2 == 0 else 'us', 'stalled': stalled},
+                            head + fev))
+                n += 1
+    return out
+
+
+MICRO_STEPS_RPC = [('W', 1), ('B', 1, 3), ('C', 1, 7), ('K', 1), ('D', 1), ('X', 1), ('Q', 1), ('BT', 1, 2),
+                   ('GB',), ('O', 1), ('OB', 1), ('ON', 1), ('AC', 1, 7), ('AB',), ('F', 9), ('R', 9), ('Z', 9)]
+MICRO_STEPS_MSG = [('W', 1), ('B', 1, 3), ('C', 1, 7), ('X', 1), ('Q', 1), ('GB',), ('BC',), ('ON', 1),
+                   ('AC', 1, 7), ('F', 9), ('Z', 9)]
+
+
+def micro_cases(r, deep):
+    # deep: 0 / 1 = a sample, 2 = all
+    """faults injected at micro-steps: after only n iterations of the event loop following an
+    event (between data_received and the first handler step, between the registration of a
+    request future and the write, inside the teardown, ...) the link drops / breaks / abort() /
+    close() (also on a stalled transport) strikes.  Oracle only (the model is about quiescent
+    states)."""
+    out = []
+    n = 0
+    for skind, steps in (('rpc', MICRO_STEPS_RPC), ('msg', MICRO_STEPS_MSG)):
+        prefixes = [[], [('W', 9)], [('W', 9), ('O', 9)] if skind == 'rpc' else [('B', 9, 3)],
+                    [('PA',), ('W', 9)], [('AC', 9, 7)]]
+        for pre in prefixes:
+            for step in steps:
+                for k in range(0, 9):
+                    for f in range(5):
+                        out.append(({'skind': skind, 'transport': 'rs' if n % 2 == 0 else 'us',
+                                     'stalled': False},
+                                    list(pre) + [('M', k, f), step, ('A', TAIL)]))
+                        n += 1
+    if deep < 2:
+        r.shuffle(out)
+        out = out[:600 if deep == 0 else 2000]
+    return out
 
 
 def run(ctx):
+    """three depths: 0 = quick; 1 = quick tier re-run after a fingerprint drift / broken
+    obligation (lib/vcheck.py has just run depth 0 with the seed and now calls again with
+    `deep` set and the seed + 1: larger random samples, no second enumeration); 2 = thorough"""
+    level = 2 if ctx.tier == 'thorough' else (1 if ctx.deep else 0)
     res = Results()
+    res['scopes']['depth'] = level
     corp = [parse_case(ln) for ln in corpus_lines(ctx.verif, 'C08')]
     if corp:
         evaluate(ctx, corp, res, 'corpus')
     res['scopes']['corpus'] = len(corp)
 
+    # callers beyond the outgoing limit
+    mass = mass_cases(level == 2)
+    if not res.failed:
+        evaluate(ctx, mass, res, 'mass_outgoing')
+    res['scopes']['mass_outgoing'] = len(mass)
+
     # lifecycle-model cases: exhaustive short + random
     lts = []
     n = 0
-    scopes = [(LTS_ALPHA_QUICK, 3)] if not ctx.deep else [(LTS_ALPHA, 3), (LTS_ALPHA_QUICK, 4)]
+    scopes = {0: [(LTS_ALPHA_QUICK, 3)], 1: [], 2: [(LTS_ALPHA, 3), (LTS_ALPHA_QUICK, 4)]}[level]
     seen = set()
     for alpha, maxlen in scopes:
         for ln in range(1, maxlen + 1):
@@ -507,41 +675,53 @@ def run(ctx):
                 seen.add(letters)
                 for stalled in (False, True):
                     skind = 'rpc' if n % 3 else 'msg'
-                    lts.append(({'skind': skind, 'transport': 'rs' if n % 2 == 0 else 'us',
-                                 'stalled': stalled}, expand_lts(letters, skind)))
+                    cfg = {'skind': skind, 'transport': 'rs' if n % 2 == 0 else 'us', 'stalled': stalled}
+                    if n % 5 == 4:
+                        cfg['ptimeout'] = 5 if n % 2 else 12
+                    lts.append((cfg, expand_lts(letters, skind)))
                     n += 1
-    lts += [random_lts_case(ctx.rng) for _ in range(30000 if ctx.deep else 3000)]
+    lts += [random_lts_case(ctx.rng) for _ in range({0: 3000, 1: 9000, 2: 20000}[level])]
     if not res.failed:
         evaluate(ctx, lts, res, 'lifecycle')
     res['scopes']['lifecycle'] = {'scopes': [[a, m] for a, m in scopes], 'cases': len(lts)}
 
     # crash-point enumeration
-    main_faults = ['drop_error', 'close', 'close2_stalled', 'handler_close', 'abort', 'drop_then_close']
-    jobs = crash_cases('rpc', RPC_STEPS_QUICK, 2)
-    jobs += crash_cases('msg', MSG_STEPS_QUICK, 2, start=1)
-    f3 = FAULTS if ctx.deep else main_faults
-    jobs += crash_cases('rpc', RPC_STEPS_QUICK, 3, faults=f3, minlen=3)
-    jobs += crash_cases('msg', MSG_STEPS_QUICK, 3, faults=f3, start=1, minlen=3)
-    if ctx.deep and not res.failed:
-        jobs += crash_cases('rpc', RPC_STEPS_QUICK, 4, faults=main_faults, minlen=4)
-        jobs += crash_cases('msg', MSG_STEPS_QUICK, 4, faults=main_faults, start=1, minlen=4)
+    main_faults = ['drop_error', 'close', 'close2_stalled', 'handler_close', 'abort', 'drop_then_close',
+                   'handler_close_long_stalled', 'close_cancelled_stalled', 'crash_then_close_stalled']
+    jobs = []
+    if level != 1:
+        jobs += crash_cases('rpc', RPC_STEPS_QUICK, 2)
+        jobs += crash_cases('msg', MSG_STEPS_QUICK, 2, start=1)
+        f3 = FAULTS if level == 2 else main_faults[:6]
+        jobs += crash_cases('rpc', RPC_STEPS_QUICK, 3, faults=f3, minlen=3)
+        jobs += crash_cases('msg', MSG_STEPS_QUICK, 3, faults=f3, start=1, minlen=3)
+    if level == 2 and not res.failed:
+        jobs += crash_cases('rpc', RPC_STEPS_QUICK, 4, faults=main_faults[:6], minlen=4)
+        jobs += crash_cases('msg', MSG_STEPS_QUICK, 4, faults=main_faults[:6], start=1, minlen=4)
         jobs += crash_cases('rpc', RPC_STEPS_FULL, 2)
         jobs += crash_cases('msg', MSG_STEPS_FULL, 2, start=1)
-    else:
+    elif level == 0:
         jobs += crash_cases('rpc', RPC_STEPS_FULL, 1)
         jobs += crash_cases('msg', MSG_STEPS_FULL, 1, start=1)
-    evaluate(ctx, jobs, res, 'crashpoint_exhaustive')
+    if jobs and not res.failed:
+        evaluate(ctx, jobs, res, 'crashpoint_exhaustive')
     res['scopes']['crashpoint_exhaustive'] = {
         'rpc_alphabet': RPC_STEPS_QUICK, 'msg_alphabet': MSG_STEPS_QUICK,
-        'max_len_all_faults': 3 if ctx.deep else 2, 'max_len_main_faults': 4 if ctx.deep else 3,
+        'max_len_all_faults': {0: 2, 1: 0, 2: 3}[level], 'max_len_main_faults': {0: 3, 1: 0, 2: 4}[level],
         'main_faults': main_faults,
         'full_alphabets': [RPC_STEPS_FULL, MSG_STEPS_FULL],
-        'full_alphabet_max_len': 2 if ctx.deep else 1,
+        'full_alphabet_max_len': {0: 1, 1: 0, 2: 2}[level],
         'faults': FAULTS, 'runs': len(jobs)}
-    rnd = random_crash_cases(ctx.rng, 120000 if ctx.deep else 5000, 8 if ctx.deep else 6)
+    rnd = random_crash_cases(ctx.rng, {0: 5000, 1: 12000, 2: 70000}[level], 8 if level == 2 else 6)
     if not res.failed:
         evaluate(ctx, rnd, res, 'crashpoint_random')
     res['scopes']['crashpoint_random'] = len(rnd)
+
+    # faults at micro-steps (oracle only)
+    mic = micro_cases(ctx.rng, level)
+    if not res.failed:
+        evaluate(ctx, mic, res, 'microstep')
+    res['scopes']['microstep'] = len(mic)
     return res.finish(RULE, exhaustive=not res.failed)
 
 
@@ -551,5 +731,7 @@ def replay(ctx, case):
     res = Results()
     cfg = {'skind': case.get('skind', 'rpc'), 'transport': case.get('transport', 'rs'),
            'stalled': bool(case.get('stalled', False))}
+    if case.get('ptimeout'):
+        cfg['ptimeout'] = int(case['ptimeout'])
     evaluate(ctx, [(cfg, W.parse_events(case['events']))], res, 'replay')
     return res.finish('replay of one recorded case')
